@@ -38,6 +38,12 @@ class TipperSurvey(FEMSurvey, AirborneEMSurvey):
     """
 
     __INPUT_TYPE = ["Rx and base stations"]
+    __UNITS = [
+        "Hertz (Hz)",
+        "KiloHertz (kHz)",
+        "MegaHertz (MHz)",
+        "Gigahertz (GHz)",
+    ]
     _base_stations = None
     _receivers = None
 
